@@ -195,7 +195,7 @@ namespace
   // Concurrent stress harness (C14). Pool file: one query per line
   //   "3\tx\ty\tz\td\tprops"  or  "2\tx\tz\td\tprops"
   // Every thread executes the whole pool in its own (seeded) order, `rounds` times.
-  // Reference answers are computed single threaded before the threads are started.
+  // Reference answers are computed single threaded after the threads have finished (the world is cold when they start).
   struct Query
   {
     int dim;
@@ -268,10 +268,10 @@ namespace
     if (pool.empty())
       throw std::string("empty pool");
 
-    // sequential reference
+    // The sequential reference is computed AFTER the threads have run: the first concurrent use of a world must find it cold
+    // (state that is initialised lazily on first use is part of what the threads share).
     std::vector<Answer> reference(pool.size());
-    for (size_t i = 0; i < pool.size(); ++i)
-      reference[i] = run_query(world, pool[i]);
+    std::vector<std::vector<std::pair<size_t,Answer>>> got(n_threads);
 
     std::atomic<unsigned int> ready(0);
     std::atomic<bool> go(false);
@@ -312,13 +312,7 @@ namespace
                   seq++;
                   --open_calls;
                   calls++;
-                  if (!(a == reference[i]))
-                    {
-                      mismatches++;
-                      std::lock_guard<std::mutex> lock(mismatch_mutex);
-                      if (mismatch_samples.size() < 5)
-                        mismatch_samples.push_back(std::to_string(t) + ":" + std::to_string(i));
-                    }
+                  got[t].emplace_back(i, a);
                 }
             }
         });
@@ -327,6 +321,16 @@ namespace
     go.store(true);
     for (auto &th : threads)
       th.join();
+    for (size_t i = 0; i < pool.size(); ++i)
+      reference[i] = run_query(world, pool[i]);
+    for (unsigned int t = 0; t < n_threads; ++t)
+      for (const auto &ia : got[t])
+        if (!(ia.second == reference[ia.first]))
+          {
+            mismatches++;
+            if (mismatch_samples.size() < 5)
+              mismatch_samples.push_back(std::to_string(t) + ":" + std::to_string(ia.first));
+          }
 
     std::string out = "calls=" + std::to_string(calls.load())
                       + " mismatches=" + std::to_string(mismatches.load())
